@@ -524,7 +524,11 @@ func (e *MetaExecutor) dial(nodeID uint64) (net.Conn, error) {
 		if err != nil {
 			return nil, err
 		}
-		e.pool.setPool(nodeID, p)
+		// Another caller may have created the pool for this node in the meantime:
+		// keep that one and release ours, otherwise its connections are never closed.
+		if cur := e.pool.setPoolIfAbsent(nodeID, p); cur != p {
+			p.Close()
+		}
 	}
 	return e.pool.conn(nodeID)
 }
